@@ -1,6 +1,6 @@
 SPECIFICATION Spec
 CONSTANTS
-  Kinds = {"get", "getnv", "form", "formnv", "multipart", "chunked", "bad", "reject", "rejectnb", "timeout", "hijack", "hclose", "abort"}
+  Kinds = {"get", "getnv", "form", "formnv", "multipart", "chunked", "cont", "contchunk", "up", "pg", "over", "bad", "reject", "rejectnb", "timeout", "hijack", "hclose", "abort"}
   MaxReqs = @@MR@@
   MaxConns = @@MC@@
   CtxIds = {1, 2, 3}
